@@ -608,6 +608,7 @@ int main(int argc, char** argv) {
 			[&](size_t u, const std::vector<std::string>& skips, long, Stats& st) {
 				std::string path = A.rundir + "/succ." + std::to_string(depth) + "." + std::to_string(vf::g_slot) + "." + std::to_string(getpid());
 				FILE* f = fopen(path.c_str(), "a");
+				if (f) setvbuf(f, nullptr, _IOLBF, 1 << 16);
 				std::set<std::string> skip(skips.begin(), skips.end()); // histories that killed a worker (already reported)
 				for (size_t i = u * per_unit; i < std::min(frontier.size(), (u + 1) * per_unit); i++) {
 					if (vf::deadline_passed()) { st.capped(vf::strf("deadline inside depth %d", depth)); break; }
@@ -666,8 +667,12 @@ int main(int argc, char** argv) {
 				if (tab == std::string::npos) continue;
 				succ_total++;
 				std::string key = line.substr(0, tab);
-				if (!seen.insert(key).second) continue;
-				J hj = J::parse(line.substr(tab + 1));
+				if (seen.count(key)) continue;
+				// a worker that died while its buffer was being flushed leaves a truncated last line; the shard was
+				// redone without the fatal history, so the complete line is in another file
+				J hj;
+				try { hj = J::parse(line.substr(tab + 1)); } catch (std::exception&) { top.add("truncated_successor_lines_ignored"); succ_total--; continue; }
+				seen.insert(key);
 				Node nd;
 				nd.init = key.substr(0, key.find('/'));
 				std::string rest = key.substr(key.find('/') + 1);
